@@ -574,7 +574,11 @@ def check(prop, tier="quick", seed=0):
 
     # 4. model run
     evaluable = [i for i, o in enumerate(obs) if not (isinstance(o, dict) and "harness_escape" in o)]
-    terms = [driver.to_coq(cases[i], obs[i]) for i in evaluable]
+    # a driver may declare a case outside its model (to_coq -> None): such a case is decided by the oracle alone
+    terms_all = [(i, driver.to_coq(cases[i], obs[i])) for i in evaluable]
+    oracle_only = [i for i, t in terms_all if t is None]
+    evaluable = [i for i, t in terms_all if t is not None]
+    terms = [t for _, t in terms_all if t is not None]
     failing, hist, errors, _ = ([], None, [], None)
     corr_ok = proof["error"] is None or "coq build failed" not in (proof["error"] or "")
     model_built = (COQ / (driver.COQ_REQUIRES[-1].replace("Hio.", "").replace(".", "/") + ".vo")).exists()
@@ -689,6 +693,7 @@ def check(prop, tier="quick", seed=0):
         "origins": {k: origin.count(k) for k in sorted(set(o.split(":")[0] for o in origin))},
         "model_branch_histogram": hist,
         "correspondence_disagreements": len(failing),
+        "cases_outside_model_oracle_only": len(oracle_only),
         "oracle_failures_unlisted": len(oracle_fail_idx),
         "known_finding_hits": ctx.known_hits,
         "notes": ctx.notes,
@@ -748,6 +753,11 @@ def replay(prop, path):
     print("case:", json.dumps(case, default=repr))
     print("implementation observed:", json.dumps(obs, default=repr))
     print("oracle:", "PASS" if why is None else f"FAIL: {why}")
-    failing, hist, errors, raw = eval_cases(driver, [driver.to_coq(case, obs)], "replay")
-    print("model vs implementation:", "AGREE" if not failing and not errors else f"DISAGREE {errors}")
+    term = driver.to_coq(case, obs)
+    if term is None:
+        failing, errors = [], []
+        print("model vs implementation: case is outside the model (decided by the oracle alone)")
+    else:
+        failing, hist, errors, raw = eval_cases(driver, [term], "replay")
+        print("model vs implementation:", "AGREE" if not failing and not errors else f"DISAGREE {errors}")
     return 0 if why is None and not failing and not errors else 1
